@@ -20,7 +20,7 @@ func cidOf(ctx context.Context) (int, bool) {
 func HarnessC18_Unique() {
 	n := 2
 	if vTier() == 1 {
-		n = 2 + vChoice(2)
+		n = 2 + vChoice(3)
 	}
 	per := 1 + vChoice(2)
 	res := make([]chan []int, n)
